@@ -312,6 +312,17 @@ static inline v4u32 llvm_x86_ssse3_phadd_d_128(v4u32 a, v4u32 b) { v4u32 r = {{a
 #ifdef NEED_llvm_x86_ssse3_phadd_w_128
 static inline v8u16 llvm_x86_ssse3_phadd_w_128(v8u16 a, v8u16 b) { v8u16 r; for (int i = 0; i < 4; ++i) { r.e[i] = (u16)(a.e[2 * i] + a.e[2 * i + 1]); r.e[4 + i] = (u16)(b.e[2 * i] + b.e[2 * i + 1]); } return r; }
 #endif
+/* PHADDSW: horizontal add of adjacent signed 16-bit pairs with signed saturation */
+#define LL_SATS16(x) ((u16)((x) > 32767 ? 32767 : ((x) < -32768 ? -32768 : (x))))
+#ifdef NEED_llvm_x86_ssse3_phadd_sw_128
+static inline v8u16 llvm_x86_ssse3_phadd_sw_128(v8u16 a, v8u16 b) { v8u16 r; for (int i = 0; i < 4; ++i) {
+  r.e[i] = LL_SATS16((s32)(s16)a.e[2 * i] + (s32)(s16)a.e[2 * i + 1]); r.e[4 + i] = LL_SATS16((s32)(s16)b.e[2 * i] + (s32)(s16)b.e[2 * i + 1]); } return r; }
+#endif
+#ifdef NEED_llvm_x86_avx2_phadd_sw
+static inline v16u16 llvm_x86_avx2_phadd_sw(v16u16 a, v16u16 b) { v16u16 r; for (int l = 0; l < 2; ++l) for (int i = 0; i < 4; ++i) {
+  r.e[8 * l + i] = LL_SATS16((s32)(s16)a.e[8 * l + 2 * i] + (s32)(s16)a.e[8 * l + 2 * i + 1]);
+  r.e[8 * l + 4 + i] = LL_SATS16((s32)(s16)b.e[8 * l + 2 * i] + (s32)(s16)b.e[8 * l + 2 * i + 1]); } return r; }
+#endif
 #ifdef NEED_llvm_x86_avx2_phadd_d
 static inline v8u32 llvm_x86_avx2_phadd_d(v8u32 a, v8u32 b) { v8u32 r = {{a.e[0] + a.e[1], a.e[2] + a.e[3], b.e[0] + b.e[1], b.e[2] + b.e[3], a.e[4] + a.e[5], a.e[6] + a.e[7], b.e[4] + b.e[5], b.e[6] + b.e[7]}}; return r; }
 #endif
